@@ -145,6 +145,7 @@ type Unit struct {
 	resultVals []Val
 	loopN    int
 	inSpec   int
+	astWrite bool
 	assertArgs []Val
 	onPos     map[*CallAssert][]token.Pos
 	matchedCA map[*CallAssert]bool
@@ -280,6 +281,12 @@ func (u *Unit) heapGet(st *State, key, sort string) string {
 	}
 	// first use in this heap epoch: the same constant in every state of that epoch
 	u.heapSorts[key] = sort
+	if u.roKey(key) {
+		// read-only location (see roKey): one constant for the whole function
+		name := u.d.constant(key+"$ro", sort)
+		st.heap[key] = name
+		return name
+	}
 	name := u.d.constant(key+"$"+st.epoch, sort)
 	st.heap[key] = name
 	return name
@@ -333,8 +340,19 @@ func (u *Unit) syncEpochs(arms []*State) string {
 	return fmt.Sprintf("e%d", u.nfresh)
 }
 
+// roKey: in the zero-annotation safety sweep the fields of go/ast nodes are read-only: the
+// analyzers, the analysis framework and go/types never write to the syntax tree they are given
+// (an assumption, listed in the evidence; a sweep unit that does write to an ast field is
+// dropped from the sweep altogether).
+func (u *Unit) roKey(key string) bool {
+	return u.contract != nil && u.contract.Sweep && strings.HasPrefix(key, "H_S_ast_")
+}
+
 func (u *Unit) heapSet(st *State, key, sort, term string) {
 	u.heapSorts[key] = sort
+	if u.roKey(key) {
+		u.astWrite = true
+	}
 	if _, ok := st.heap[key]; !ok {
 		u.heapGet(st, key, sort)
 	}
